@@ -39,5 +39,7 @@ for s in stale: print("note: unclaimed.json entry no longer generated:", s)
 sys.exit(1 if missing else 0)
 PY
 rc=$?
+# second audit: every static caller of a function with preconditions is itself verified
+$GVC audit-callers | grep "^UNCHECKED\|^audit-callers" ; [ ${PIPESTATUS[0]} -eq 0 ] || rc=1
 rm -rf $out
 exit $rc
